@@ -128,6 +128,17 @@ def real_clients(prop, tier, seed, verdict, cov):
     for (idx, why) in conf["drifts"]:
         cov["drift"] += 1
         log(f"DRIFT property={prop} the broker deviates from Broker.tla: {why} (real clients, record {idx})")
+    # the client-level clauses of the property (items / events as the applications see them)
+    cres = vlib.tlc_trace("Trace_Client.tla", "Trace_Client.cfg", cpath)
+    crecs = None
+    for (idx, p, why) in cres["violations"]:
+        crecs = crecs or vlib.read_ndjson(cpath)
+        a, b = vlib.run_of_record(crecs, idx)
+        if p == prop:
+            verdict.violation(why, dict(kind="bus-programs", driver_args=[str(x) for x in args], record_index=idx,
+                                        trace=[r for r in crecs[a:b] if r.get("t") != "tap"][:400], violated_at=crecs[idx - 1]))
+        else:
+            verdict.note(f"client-level violation of {p} observed while checking {prop}: {why} (record {idx})")
 
 
 def model_check(prop, tier, seed, verdict, cov):
